@@ -47,6 +47,11 @@ such case is a unit, an obligation or a scenario that now exists:
   handled event".  C08e missed (label) -> C08 on the traversal obligation.  C13e: drift, no scenario -> `queue` scenario "submachine sends itself
   an unhandled event".  C02e decided by the scenario added for C09d, then also by contract (a direct `execute_entry` call in a row is an
   obligation failure).  C01e C03e C07e C09e C10e C11e C12e caught by contracts at once; witness scenarios added for C09e C11e C12e.
+  Batch 3: C14e and C17e were missed at the quick tier although an obligation failed - under a sibling property (C02/C06 resp. the frame of
+  `on_exit`) -> rule 10.3(d): whenever the tree differs from the validated one the property's own native families run as well; `fronts` has the
+  guard-only state-local row, `block` the scenario "flag of a substate while its submachine is being left"; `on_exit` runs under C03/C17.
+  C18e (type-level reordering of Kleene rows) -> `kleene` scenario "Kleene row declared last wins".  C15e C16e C19e C20e caught at once (C16e by
+  the `ser` continuation scenarios); witnesses added for C15e (`copy`: front-end data) and C20e (`queue`: bounded drain with a burst).
 * type-level changes (no contract reaches them; the native families decide - since the uncovered-code trigger of 10.3(c) also in the quick tier): C17b, C17c, C13b, C07c, C18c, C06d.
 
 ''' % n
